@@ -68,6 +68,13 @@ class ShapeOf:
         self.shape = shape
 
 
+class SizeOf:
+    """The value of `a.size` / `np.size(a)`: the number of elements - as the shape argument of a constructor it yields a flat array."""
+
+    def __init__(self, shape: tuple):
+        self.shape = shape
+
+
 class ShapeEval:
     def __init__(self, env: Callable[[Term], tuple | None], call: Callable[[Term, "ShapeEval"], tuple | None] | None = None,
                  protected: frozenset = frozenset()):
@@ -140,6 +147,9 @@ class ShapeEval:
             if t[2] == "T":
                 s = self.ev(t[1])
                 return s if s == TOP else tuple(reversed(s))
+            if t[2] == "size":
+                s = self.ev(t[1])
+                return s if s == TOP else SizeOf(s)  # type: ignore[return-value]
             return self.top(t)
         if k == "sub":
             members = self.seq(t[1])
@@ -235,7 +245,26 @@ class ShapeEval:
                     arr = [a for a in args]
                     if short == "interp":
                         arr = arr[:1]
-                    return broadcast(*[self.ev(a) for a in arr])
+                    res = broadcast(*([self.ev(a) for a in arr] + ([self.ev(kwargs["where"])] if "where" in kwargs else [])))
+                    if "out" in kwargs and not (kwargs["out"][0] == "const" and kwargs["out"][1] is None):
+                        buf = self.ev(kwargs["out"])
+                        if buf != TOP and res != TOP and buf != res:
+                            raise ShapeError(f"`{show(t)[:70]}` writes a result of shape {fmt(res)} into an `out=` buffer of shape {fmt(buf)}: numpy rejects it "
+                                             "(non-broadcastable output operand) - the buffer must have the broadcast shape of the operands, not the shape of one of them")
+                        return buf
+                    return res
+                if short in ("ones", "zeros", "empty", "full") and args:
+                    first = self.ev(args[0]) if args[0][0] in ("attr", "call") else None
+                    if isinstance(first, ShapeOf):
+                        return first.shape
+                    if isinstance(first, SizeOf):
+                        if len(first.shape) >= 2:
+                            raise ShapeError(f"`{show(t)[:70]}` builds a flat array of `size` elements: an operand with two or more dimensions comes back flattened")
+                        return first.shape if first.shape else (1,)
+                    return self.top(t)
+                if short == "size" and len(args) == 1:
+                    s_ = self.ev(args[0])
+                    return s_ if s_ == TOP else SizeOf(s_)  # type: ignore[return-value]
                 if short in SAME_SHAPE_1 and args:
                     return self.ev(args[0])
                 if short == "atleast_2d" and args:
